@@ -187,6 +187,12 @@ func c02GenOp(rt *rapid.T, single bool, mixed bool) prog.Op {
 			op.Keys = append(op.Keys, c02GenKey(rt, "mk"))
 		}
 		op.Keys = dedup(op.Keys)
+		if rapid.IntRange(0, 3).Draw(rt, "nullver") == 0 {
+			// the entries carry the version ID a listing of these (never versioned) buckets shows
+			for range op.Keys {
+				op.VRefs = append(op.VRefs, prog.NullRef)
+			}
+		}
 		op.Quiet = rapid.Bool().Draw(rt, "quiet")
 	case "copy":
 		op.Key = k
